@@ -12,10 +12,10 @@ One Lean function per C function / loop; the loop state is an explicit argument.
 because the write cursor never overtakes the read cursor (see the comments at each function).
 
 `decodeFilename` has a parameter `terminate`:
- * `terminate = true`  — the **repaired** code (`*dst = '\0'` after the closing quote), used by the main model;
- * `terminate = false` — the code as it is at the pinned snapshot: the quoted branch never writes the
-   terminating NUL, so the C string that is used afterwards is the unescaped name followed by the *stale tail*
-   of the original buffer (`"b"` is read as `bb"`).  Used by `Sqfs/Witness/C17.lean` (finding D26).
+ * `terminate = true`  — the **current** code (`*dst = '\0'` after the closing quote, /repo 3c63401), the main model;
+ * `terminate = false` — the code before that fix: the quoted branch never wrote the terminating NUL, so the C
+   string used afterwards was the unescaped name followed by the *stale tail* of the original buffer (`"b"` read as
+   `bb"`).  Kept for `Sqfs/Witness/C17.lean` (finding D26) and so that a regression is recognised.
 -/
 import Sqfs.Model.Path
 import Sqfs.Generated.Consts
@@ -53,7 +53,7 @@ inductive Err where
   | unknownflag   -- "Unknown flag `%s`."
   | unmatched     -- "Unmatched '\"' in filename."
   | escape        -- "Unknown escape sequence `\\%c` in filename."
-  | trailing      -- bytes after the closing quote: `return -1` without a message
+  | trailing      -- "Unexpected characters after quoted filename."   (a diagnostic since /repo 777e59f; was a silent -1)
   | canon         -- "Malformed filename."                                     (canonicalize_name refused)
   deriving DecidableEq, Repr
 
@@ -222,7 +222,7 @@ def unquote : Bytes → Except Err (Bytes × Bytes)
       | .error e => .error e
 
 /-- `decode_filename`.  The write cursor `dst` starts one byte behind `src`, and every step advances `src` at
-least as far as `dst`.  With `terminate = false` (pinned snapshot) the buffer keeps its stale tail. -/
+least as far as `dst`.  With `terminate = false` (before /repo 3c63401) the buffer keeps its stale tail. -/
 def decodeFilename (terminate : Bool) (buf : Bytes) : Except Err Bytes :=
   let raw : Except Err Bytes :=
     match buf with
